@@ -245,7 +245,7 @@ class Diff(PureSymbolic, pg_object.Object, tree_view.HtmlTreeView.Extension):
       s = tree_view.Html()
       for k, v in self.children.items():
         k = key_fn(k)
-        child_path = root_path + k
+        child_path = utils.KeyPath(k, root_path)
         has_diff = bool(v)
         s.write('<tr><td>')
         # Print Key.
